@@ -185,6 +185,57 @@ func c08Multi(shape string, ops []string, nodes ...string) func(x *sched.X) {
 	}
 }
 
+// c08Trigger: the real truncation trigger (weight signal -> runTruncate daemon) with the threshold scaled to 4,
+// on a chain of 6 with a late shallow side tip delivered by an outside sealer.
+func c08Trigger(withSide bool) func(x *sched.X) {
+	return func(x *sched.X) {
+		vsched.Quiet(true)
+		nd := world.GetNodes("G")
+		w := world.NewLW(nd, sp(100, 0), 4)
+		x.Vars["w"] = w
+		x.Vars["phase"] = "op"
+		R, A, B, M := world.Cast("R"), world.Cast("A"), world.Cast("B"), world.Cast("M")
+		ctx := context.Background()
+		for i := 0; i < 5; i++ {
+			if _, err := w.Propose(ctx, 0, w.Tx(fmt.Sprintf("s%d", i), R, A, 1, 0)); err != nil {
+				panic(err)
+			}
+			vsched.Settle()
+		}
+		if withSide {
+			side := w.Craft(M, w.Tx("side", R, B, 1, 0), w.Genesis.Hash, w.Genesis.Hash, 1)
+			if err := w.Deliver(ctx, 0, side); err != nil {
+				panic(err)
+			}
+			vsched.Settle()
+		}
+		vsched.Quiet(false)
+		// the next admissions raise the weight past the threshold: the daemon truncates, choosing a tip.
+		// They arrive by gossip (sealed by M on the chain tip), so a shallow side tip is not merged away first.
+		for i := 0; i < 3; i++ {
+			snap := nd[0].Book.VerifSnapshot()
+			var tip accountant.Vertex
+			for _, v := range snap.Vertices {
+				if v.Weight >= tip.Weight {
+					for _, l := range snap.Leaves {
+						if l == v.Hash {
+							tip = v
+						}
+					}
+				}
+			}
+			v := w.Craft(M, w.Tx(fmt.Sprintf("u%d", i), R, A, 1, 0), tip.Hash, tip.Hash, tip.Weight+1)
+			err := w.Deliver(ctx, 0, v)
+			x.Obsf("deliver=%s", world.ErrClass(err))
+			vsched.Settle()
+		}
+		snap := nd[0].Book.VerifSnapshot()
+		x.Obsf("live=%d stored=%d fatals=%d", len(snap.Vertices), len(snap.Stored), len(nd[0].Log.Fatals))
+		vsched.Quiet(true)
+		c08Probe(w, x)
+	}
+}
+
 func c08Oracle(name string) func(x *sched.X, r *vsched.Result) []common.Violation {
 	return func(x *sched.X, r *vsched.Result) []common.Violation {
 		var out []common.Violation
@@ -289,6 +340,8 @@ func c08Scenarios() map[string]*sched.Scenario {
 	add("S3/stream+create/chain4", []int{-1}, c08Multi("chain4", []string{"stream", "create"}))
 	add("S4/truncate+create+balance/chain4", []int{-1}, c08Multi("chain4", []string{"truncate", "create", "balance"}))
 	add("S5/sync+create/chain4", []int{-1}, c08Multi("chain4", []string{"sync", "create"}, "G", "N1"))
+	add("S7/real-trigger-truncate/chain", []int{-1}, c08Trigger(false))
+	add("S7/real-trigger-truncate/chain+shallow-side-tip", []int{-1}, c08Trigger(true))
 	add("S6/stream-abandoned/chain6", []int{-1}, c08Single("stream-abandon", "chain6"))
 	add("S6/stream-abandoned+create/chain6", []int{-1}, c08Multi("chain6", []string{"stream-abandon", "create"}))
 	return m
